@@ -7,6 +7,11 @@
 //!                           markers may stand anywhere, also before the first Item (the backtest clock
 //!                           is initialised from the first Item by the real `MarketDataInMemory::new`;
 //!                           a dataset without any Item makes `new` panic: `run` then reports `panic`)
+//!   `data_slow g k e0 ...`  the same dataset served by the harness's own `BacktestMarketData` (`PacedData`)
+//!                           whose stream sleeps `g` ms of TOKIO time before every event; every run of
+//!                           such a case uses a current-thread runtime with a paused (auto-advancing)
+//!                           clock, so a 30 s dataset costs no wall-clock time. The pacing of the data
+//!                           source is irrelevant to the property: `seen` must still be the whole dataset
 //!   `strat t:i:s:q ...`     one strategy parameterisation (a plan): after the `t`-th market event
 //!                           (1-based count of market events processed) send a market order on
 //!                           instrument `i`, side `s` (B/S), quantity `q`; `strat -` = passive
@@ -28,7 +33,8 @@
 use barter::{
     EngineEvent,
     backtest::{
-        BacktestArgsConstant, BacktestArgsDynamic, backtest, market_data::MarketDataInMemory,
+        BacktestArgsConstant, BacktestArgsDynamic, backtest,
+        market_data::{BacktestMarketData, MarketDataInMemory},
         run_backtests, summary::BacktestSummary,
     },
     engine::{
@@ -78,6 +84,7 @@ use barter_instrument::{
     index::IndexedInstruments,
     instrument::{Instrument, InstrumentIndex},
 };
+use futures::{StreamExt, stream::BoxStream};
 use rust_decimal::Decimal;
 use std::sync::{Arc, Mutex};
 use vh::{engine_util::time_ms, *};
@@ -379,6 +386,50 @@ struct Setup {
     n_events: usize,
     plans: Vec<Vec<PlanItem>>,
     latency_ms: u64,
+    /// `data_slow`: tokio-time gap before every event of the stream
+    gap_ms: Option<u64>,
+}
+
+/// The data source handed to `backtest()`: the repo's `MarketDataInMemory` (clock from its `new`,
+/// stream from its `stream()`), or - for `data_slow` - the same events served by an async stream
+/// that sleeps `gap` of tokio time before each one (a legal custom `BacktestMarketData`).
+#[derive(Debug, Clone)]
+struct PacedData {
+    inner: MarketDataInMemory<DataKind>,
+    events: Arc<Vec<MarketStreamEvent<InstrumentIndex, DataKind>>>,
+    gap_ms: Option<u64>,
+}
+
+impl BacktestMarketData for PacedData {
+    type Kind = DataKind;
+
+    async fn time_first_event(&self) -> Result<chrono::DateTime<chrono::Utc>, barter::error::BarterError> {
+        self.inner.time_first_event().await
+    }
+
+    async fn stream(
+        &self,
+    ) -> Result<
+        impl futures::Stream<Item = MarketStreamEvent<InstrumentIndex, DataKind>> + Send + 'static,
+        barter::error::BarterError,
+    > {
+        let stream: BoxStream<'static, MarketStreamEvent<InstrumentIndex, DataKind>> = match self.gap_ms {
+            None => self.inner.stream().await?.boxed(),
+            Some(gap) => {
+                let events = Arc::clone(&self.events);
+                futures::stream::iter(0..events.len())
+                    .then(move |index| {
+                        let events = Arc::clone(&events);
+                        async move {
+                            tokio::time::sleep(std::time::Duration::from_millis(gap)).await;
+                            events[index].clone()
+                        }
+                    })
+                    .boxed()
+            }
+        };
+        Ok(stream)
+    }
 }
 
 fn asset_name(j: usize) -> String {
@@ -413,7 +464,7 @@ fn initial_balances(instruments: &IndexedInstruments) -> Vec<(String, Decimal)> 
 
 fn args_constant(
     s: &Setup,
-) -> Arc<BacktestArgsConstant<MarketDataInMemory<DataKind>, Daily, State>> {
+) -> Arc<BacktestArgsConstant<PacedData, Daily, State>> {
     let balances = initial_balances(&s.instruments);
     let executions = vec![ExecutionConfig::Mock(MockExecutionConfig {
         mocked_exchange: EXCHANGE,
@@ -447,7 +498,11 @@ fn args_constant(
     Arc::new(BacktestArgsConstant {
         instruments: s.instruments.clone(),
         executions,
-        market_data: MarketDataInMemory::new(Arc::clone(&s.events)),
+        market_data: PacedData {
+            inner: MarketDataInMemory::new(Arc::clone(&s.events)),
+            events: Arc::clone(&s.events),
+            gap_ms: s.gap_ms,
+        },
         summary_interval: Daily,
         engine_state,
     })
@@ -466,8 +521,15 @@ fn dynamic(
     }
 }
 
-fn runtime(workers: usize) -> tokio::runtime::Runtime {
-    if workers == 0 {
+fn runtime(workers: usize, paused: bool) -> tokio::runtime::Runtime {
+    if paused {
+        // virtual time: the clock auto-advances whenever every task is idle
+        tokio::runtime::Builder::new_current_thread()
+            .enable_all()
+            .start_paused(true)
+            .build()
+            .unwrap()
+    } else if workers == 0 {
         tokio::runtime::Builder::new_current_thread()
             .enable_all()
             .build()
@@ -590,7 +652,7 @@ fn run_concurrent(s: &Setup, bs: &[usize], workers: usize) -> RunResult {
         .zip(&sinks)
         .map(|(b, sink)| dynamic(s, *b, Arc::clone(sink)))
         .collect();
-    let rt = runtime(workers);
+    let rt = runtime(workers, s.gap_ms.is_some());
     let multi = rt
         .block_on(async move {
             if dynamics.len() == 1 {
@@ -642,7 +704,10 @@ fn run() {
         for op in &case.ops {
             lines.push("@".into());
             match op[0].as_str() {
-                "data" => {
+                "data" | "data_slow" => {
+                    let slow = op[0] == "data_slow";
+                    let gap_ms: Option<u64> = slow.then(|| op[1].parse().unwrap());
+                    let op = if slow { &op[1..] } else { &op[..] };
                     let k: usize = op[1].parse().unwrap();
                     let latency_ms: u64 = 0;
                     let instruments = build_instruments(k);
@@ -678,6 +743,7 @@ fn run() {
                         events: Arc::new(events),
                         plans: vec![],
                         latency_ms,
+                        gap_ms,
                     });
                 }
                 "strat" => {
@@ -713,6 +779,10 @@ fn run() {
                         // runtime (the property quantifies over thread counts and interleavings)
                         let mut shapes = vec![w, 0, 4];
                         shapes.dedup();
+                        if s.gap_ms.is_some() {
+                            // every runtime of a paced case is the paused current-thread one
+                            shapes = vec![0];
+                        }
                         let mut all_same = true;
                         let mut last = None;
                         for shape in shapes {
